@@ -10,7 +10,8 @@ package app_test
 //   C03  exact rational walk of the constant-liquidity curve through the same ticks; estimate == execute;
 //        estimates leave the store untouched; there-and-back never profits
 //   C01  on a discarded branch everybody claims and withdraws everything; claimable sums <= balances
-//   C08  twin positions earn identical rewards, k-fold liquidity earns k-fold, never-in-range earns
+//   C08  (uptime incentives on random subsets of the six supported uptimes: cl_incentives_test.go)
+//        twin positions earn identical rewards, k-fold liquidity earns k-fold, never-in-range earns
 //        nothing, total claimable <= paid in, claims neither lose nor duplicate.
 
 import (
@@ -565,6 +566,7 @@ func (e *clEngine) step() {
 	o := e.o
 	kind := e.r.Intn(100)
 	e.forced, e.forcePos = false, 0
+	e.inc.opYoung = map[string]bool{} // set by the claim-like op of this step (claimClasses), read by oracle (b) after it
 	arg := 0
 	if len(e.queue) > 0 {
 		st := e.queue[0]
